@@ -95,6 +95,14 @@ def run(tier, seed):
                 ops = [json.loads(json.dumps(alpha[ch])) for ch in sq] + [{"op": "into_inner"}]
                 meta = [[container.T(k), [rng.randrange(256) for _ in range(rng.randrange(0, 5))]] for k in rng.sample(["a", "user.meta", "zz", "avro.x"], rng.randrange(0, 4))]
                 wcmds.append(container.writer_cmd(G, cd, approx, ops, meta=meta, cid=len(wcmds), level=rng.choice([None, 1, 9])))
+    # the schema reached through a history (parsed from a different text, fingerprint asked, then edited into the wanted graph): the
+    # header's avro.schema must be the text of the schema the values are encoded with
+    for cd in ("null", "deflate"):
+        for sq in ("s", "sBx"):
+            ops = [json.loads(json.dumps(alpha[ch])) for ch in sq] + [{"op": "into_inner"}]
+            c = container.writer_cmd(G, cd, 20, ops, cid=len(wcmds))
+            c["schema"] = dict(c["schema"], via_edit=True)
+            wcmds.append(c)
     # zero-byte datums (schema null, a record without fields): blocks with a count and an empty payload, every codec
     Gnull = [{"k": "null", "lt": "none"}]
     Gempty = [{"k": "record", "lt": "none", "name": container.T("Empty"), "fields": []}]
